@@ -36,7 +36,7 @@ const SPEC: Spec = Spec {
         "SC.serialize.ensures.legal",
         "SC.serialize.ensures.order",
     ],
-    obl_complete: &["SC.is_consistent.ensures.complete", "SC.serialize.ensures.complete"],
+    obl_complete: &["SC.is_consistent.ensures.complete", "SC.serialized_history.ensures.complete", "SC.serialize.ensures.complete", "SC.serialize.loop2.invariant.explored"],
 };
 
 const SUFFIXES: [&str; 6] = ["#wf", "#invalid", "#sound", "#complete", "#linsc", "#clone"];
@@ -94,7 +94,7 @@ pub fn run(ctx: &mut Ctx) {
                     format!("linearizable implies sequentially consistent; events={:?}", events),
                 )
             };
-            ctx.check(&linsc_case, "lin-implies-sc", &["SC.lemma.lin_order_implies_sc_order"], ok, obs, req);
+            ctx.check(&linsc_case, "lin-implies-sc", &["SC.lemma.lin_order_implies_sc_order", "SC.lemma.linearizable_implies_sc_consistent", "LIN.is_consistent.ensures.sound", "SC.is_consistent.ensures.complete"], ok, obs, req);
         }
         if wc {
             // (vi) both testers are plain values
@@ -103,7 +103,7 @@ pub fn run(ctx: &mut Ctx) {
                 Ok(()) => (String::new(), String::new()),
                 Err(d) => (d.clone(), format!("t == snapshot after recording into t.clone(); events={:?}", events)),
             };
-            ctx.check(&clone_case, "clone-independent", &["SC.plain-values", "LIN.plain-values"], r.is_ok(), obs, req);
+            ctx.check(&clone_case, "clone-independent", &["SC.lemma.plain_value_guard", "LIN.lemma.plain_value_guard"], r.is_ok(), obs, req);
         }
     });
 }
